@@ -63,6 +63,23 @@ func c12Plan(tier string) []PlanItem {
 			items = append(items, PlanItem{c12Scenario(seq, thr), 0})
 		}
 	}
+	// the same sequences with one transient failure of a heartbeat refresh, injected at
+	// every refresh in turn (d = 1): the health count must not depend on the refresh
+	flen := 4
+	if tier == "thorough" {
+		flen = 5
+	}
+	for _, seq := range c12Seqs(flen) {
+		for _, thr := range []int{1, 2, 3} {
+			s := c12Scenario(seq, thr)
+			s.Name += "/hb-error"
+			s.AllowErr = []string{"timeout"}
+			s.FaultLabels = []string{"hb"}
+			s.NoTimeDev = true
+			s.DevUntil = time.Duration(len(seq)+2) * s.H
+			items = append(items, PlanItem{s, 1})
+		}
+	}
 	return items
 }
 
